@@ -449,7 +449,7 @@ Definition step (w : world) (e : event) : world * string :=
         (* the configured exit code is returned, then `self` is dropped: verification in drop *)
         (kill w1 i it,
          match drop_panic hinfo (w_bc w1) (w_cfg w1) (w_state w1) x it (count_after_release (w_insts w1) it) with
-         | None => "exit:" ++ show_retval v
+         | None => "exit:" ++ match v with RVDefault => "SUCCESS" (* ExitCode::default() *) | _ => show_retval v end
          | Some msg => "P:" ++ msg
          end)
       | _ => (kill w1 i it, "unmodelled")
